@@ -16,7 +16,7 @@ def _arm_opcode_tracing():
 
 class Preempter(object):
     def __init__(self, sim, prob=0.25, funcs=None, path_part='/pynetdicom2/', park_prob=0.0,
-                 park_max=0.2, opcode_prob=0.0, opcode_funcs=None):
+                 park_max=0.2, opcode_prob=0.0, opcode_funcs=None, files=None):
         """park_prob: fraction of the pre-emptions that park the thread for up to park_max
         virtual seconds (a slow thread inside the function) instead of merely yielding - other
         threads then run until they block, which lets a second thread reach the same code."""
@@ -26,6 +26,9 @@ class Preempter(object):
         # between evaluating an expression and storing its result (sub-line races)
         self.opcode_prob = opcode_prob
         self.opcode_funcs = opcode_funcs        # None: every selected function
+        # files: also every function defined in library files with these base names (a change
+        # may move the racy code into a helper whose name no check can know in advance)
+        self.files = tuple('/' + f for f in files) if files else ()
         self.park_prob = park_prob
         self.park_max = park_max
         self.prob = prob
@@ -37,7 +40,9 @@ class Preempter(object):
         if event != 'call':
             return None
         code = frame.f_code
-        if code.co_name in self.funcs and self.path_part in code.co_filename:
+        if (code.co_name in self.funcs or
+                (self.files and code.co_filename.endswith(self.files))) and \
+                self.path_part in code.co_filename:
             if self.opcode_prob and (self.opcode_funcs is None or
                                      code.co_name in self.opcode_funcs):
                 frame.f_trace_opcodes = True
